@@ -1,5 +1,4 @@
 // Specs and contract harnesses for src/config.rs (automatic collection policy, C15).
-#![allow(dead_code, unused_imports)]
 use super::*;
 use crate::lists::verif_proofs as lp;
 use crate::state::verif_proofs as sp;
